@@ -46,7 +46,8 @@ CHECKS = {
              "'representable at the configured decimals' precondition), forking on the real is_close(height,1)/is_close(weight,1) "
              "branches; per path the second text equals the first, structure is equal, 'imported field != original' is unsat for every "
              "numeric field, outputs on symbolic inputs cannot differ, and perturbed texts reach a fixed point after one cycle.",
-        note=NOTE_R + "Digit-level formatting (f'{x:.3f}', float()) is outside the model by construction: a change confined to the printed digits "
+        note=NOTE_R + "Round trips at decimals 3 and 5 (every parameter on that grid; a fixed-point format with fewer decimals than those in force stands "
+             "for the rounded value). Digit-level formatting (f'{x:.3f}', float()) is otherwise outside the model by construction: a change confined to the printed digits "
              "is not detected (see DESIGN.md, seeded C14-str-scientific-large). Engine family bounded (catalogue).",
         ref="DESIGN.md §2 C14"),
     "C18": dict(
@@ -192,7 +193,8 @@ CHECKS = {
              "formulas, range, SOM<=MOM<=LOM, NaN-iff-empty, translation and batch=per-set are SMT queries over all memberships and "
              "ranges for r up to the stated bound; Aggregated/Activated.membership is proven equal to the documented fold for every "
              "implication x aggregation pair.",
-        note=NOTE_R + "Resolutions above the bound (incl. the default 1000) are outside the claim.",
+        note=NOTE_R + "Defuzzified values: resolutions above the bound are outside the claim; the SAMPLING (number and position of the points, "
+             "Op.midpoints) is decided separately at resolutions 49..1000 quick / up to 2000 thorough with a symbolic range.",
         ref="DESIGN.md §2 C09"),
     "C11": dict(
         text="Bounded symbolic verification: tsukamoto(y) of the six monotonic terms is executed with symbolic parameters, height and "
